@@ -1333,3 +1333,50 @@ func ruleSetTarget(w *World, r *Report, pf *patchFamily) {
 			"under strict strategy a success return at "+bad+" is reachable while pathAhead is not empty (isLeaf() also accepts a remaining set/multiset element): a set or multiset hunk addressed to this non-array node is applied as a plain replacement instead of failing")
 	}
 }
+
+// ruleMergeKeep — R-MERGEKEEP (C12). RFC 7386: MergePatch(Target, Patch) with
+// an object Patch *merges into* an object Target; in particular
+// MergePatch(T, {}) = T for every object T. The merge reader hands an empty
+// object on as one hunk whose value is that object, so the object's own patch
+// — at the leaf, under merge strategy — must be able to answer with (something
+// derived from) the object it was applied to. If every success return that
+// the object patch makes on its own behind "strategy is merge" is a function
+// of the hunk's values alone, `{"a":{}}` applied to `{"a":{"b":1}}` cannot
+// give `{"a":{"b":1}}`.
+func ruleMergeKeep(w *World, r *Report, pf *patchFamily) {
+	const rule = "R-MERGEKEEP"
+	for _, fn := range pf.methods {
+		if fn.Signature.Recv() == nil || typeName(fn.Signature.Recv().Type()) != "jsonObject" {
+			continue
+		}
+		r.Fn(fnName(fn))
+		x := &expectCtx{w: w, pf: pf, fn: fn, d: NewDeriv(w, fn), ea: newErrAnalysis(w), lps: loopsOf(fn)}
+		calls := pf.familyCalls(fn)
+		merge := x.mergeEdges()
+		if len(merge) == 0 {
+			r.Ok(rule, fnName(fn)+":merge-leaf-keeps-object", w.Pos(fn.Pos()), "no branch on the merge strategy in the object patch: this rule makes no claim (not decided)")
+			continue
+		}
+		recv := fn.Params[0]
+		n, keeps := 0, 0
+		for _, ret := range returnsOf(fn) {
+			if !isNilErrReturn(ret) || x.delegated(ret, calls) {
+				continue
+			}
+			if !cutsOff(fn, merge, ret.Block()) {
+				continue // also reachable under strict strategy
+			}
+			n++
+			if x.d.HasRoot(ret.Results[0], recv) {
+				keeps++
+			}
+		}
+		if n == 0 {
+			r.Ok(rule, fnName(fn)+":merge-leaf-keeps-object", w.Pos(fn.Pos()), "no success return of its own behind the merge strategy: this rule makes no claim (not decided)")
+			continue
+		}
+		r.Check(keeps > 0, rule, fnName(fn)+":merge-leaf-keeps-object", w.Pos(fn.Pos()),
+			fmt.Sprintf("of the %d success returns the object patch makes on its own under merge strategy, %d answer with the object it was applied to", n, keeps),
+			fmt.Sprintf("none of the %d success returns the object patch makes on its own under merge strategy depends on the object it was applied to: an object value in a merge patch always replaces an object target, whereas RFC 7386 merges it in (MergePatch(T, {}) = T)", n))
+	}
+}
